@@ -10,6 +10,7 @@ import JumanjiModel.Prim.Float
 import JumanjiModel.Prim.FloatLemmas
 import JumanjiModel.Env.Snake.RunLemmas
 import JumanjiModel.Env.SpecTieSSM
+import JumanjiModel.Env.Snake.SpecValid
 open Jm Jx Snake
 
 namespace Props.C04
@@ -520,4 +521,115 @@ defect of the original tree, `DiscreteArray(time_limit)`), and a wrong plane cou
 example : SpecTieSSM.tie "snake-5x6" (obsBounds ⟨5, 6, 11⟩) (obsShapes ⟨5, 6, 10⟩) = false ∧
     SpecTieSSM.tie "snake-5x6" (obsBounds ⟨5, 6, 10⟩) [("grid", [5, 6, 4]), ("step_count", []), ("action_mask", [4])] = false := by
   decide +kernel
+/-! #### (wave 4) membership in the DECLARED specs: structure, field order, shapes, dtypes and inclusive bounds -/
+open Sp PzS PkS
+
+/-- the model's `obsSpec` / `actionSpec` / reward and discount specs ARE the specs generated from the real spec objects
+(Gen/Specs.lean) for the catalogue configuration `Snake(num_rows=5, num_cols=6, time_limit=10)`: `grid` BoundedArray((5, 6, 5),
+float32, 0, 1), `step_count` DiscreteArray(11), `action_mask` BoundedArray((4,), bool) -/
+theorem snake_obsSpec_generated :
+    prefixed "observation_spec." (obsSpec ⟨5, 6, 10⟩) = declared "snake-5x6" "observation_spec." ∧
+    [("action_spec", Snake.actionSpec)] = declared "snake-5x6" "action_spec" ∧
+    [("reward_spec", rewardSpec)] = declared "snake-5x6" "reward_spec" ∧
+    [("discount_spec", discountSpec)] = declared "snake-5x6" "discount_spec" := by
+  refine ⟨by decide, by decide, by decide, by decide⟩
+
+/-- the `reset` observation (ALL board sizes with at least one row, ANY head and fruit draws — admissible or not) is accepted
+by `observation_spec.validate`: fields `grid`, `step_count`, `action_mask`; shapes `(R, C, 5)`, `()`, `(4,)`; dtypes float32,
+int32, bool; bounds `[0, 1]`, `{0 … time_limit}`, `[0, 1]`.  `RndKeeps01 rnd`: the float32 rounding of
+`body_state / max(1, max)` maps `[0, 1]` into `[0, 1]` (as in `snake_reset_obs_in_bounds`) -/
+theorem snake_reset_obs_valid (rnd : Rat → Rat) (hrnd : RndKeeps01 rnd) (cfg : Cfg) (hR : 0 < cfg.rows)
+    (htl : 0 ≤ cfg.timeLimit) (hr hc d : Nat) :
+    (obsSpec cfg).valid (toNValue (reset rnd cfg hr hc d).2.obs) = true :=
+  Snake.reset_obs_valid rnd hrnd cfg hR htl hr hc d
+
+/-- the invariant `SpecInv` (`body_state` of the configured shape; board numbers, length and counter non-negative) holds
+after `reset` (ANY draws), in every consistent state, and is preserved by EVERY step: any integer as action (legal, illegal,
+outside the action space), any fruit draw, MID or LAST -/
+theorem snake_specInv_invariant (rnd : Rat → Rat) (cfg : Cfg) :
+    (∀ hr hc d : Nat, SpecInv cfg (reset rnd cfg hr hc d).1) ∧
+    (∀ s : State, Consistent cfg s → SpecInv cfg s) ∧
+    (∀ (s : State) (a : Int) (d : Nat), SpecInv cfg s → SpecInv cfg (step rnd cfg s a d).1) :=
+  ⟨Snake.reset_specInv rnd cfg, Snake.specInv_of_consistent cfg, fun s a d h => Snake.step_specInv rnd cfg s h a d⟩
+
+/-- the observation of EVERY step — any integer as action, any draw, terminal step included (where `step_count = time_limit`,
+the value `DiscreteArray(time_limit)` of the original tree excluded) — from a state satisfying the invariant whose counter
+has not reached the limit is a member of the spec -/
+theorem snake_step_obs_valid (rnd : Rat → Rat) (hrnd : RndKeeps01 rnd) (cfg : Cfg) (hR : 0 < cfg.rows) (s : State)
+    (h : SpecInv cfg s) (hlim : s.stepCount < cfg.timeLimit) (a : Int) (d : Nat) :
+    (obsSpec cfg).valid (toNValue (step rnd cfg s a d).2.obs) = true :=
+  Snake.step_obs_valid rnd hrnd cfg hR s h hlim a d
+
+/-- the hypotheses are satisfiable: the reset state of a 2×3 board with limit 1 -/
+example : SpecInv ⟨2, 3, 1⟩ (reset Jx.roundF32 ⟨2, 3, 1⟩ 0 0 5).1 ∧ (reset Jx.roundF32 ⟨2, 3, 1⟩ 0 0 5).1.stepCount < 1 :=
+  ⟨Snake.reset_specInv _ _ _ _ _, by decide +kernel⟩
+
+/-- WHOLE EPISODES: along the rollout (`Ep.rollout` = the L1 step iterated) of ANY integers as actions and ANY fruit draws
+from `reset` (any draws), every observation emitted by one of the first `time_limit` steps is a member of the spec and every
+state satisfies the invariant; the first LAST timestep is among them (`snake_run_last_at_limit`: the step that brings the
+counter to `time_limit` is LAST), so this covers every observation of every episode up to and including the terminal one -/
+theorem snake_obs_valid_along (rnd : Rat → Rat) (hrnd : RndKeeps01 rnd) (cfg : Cfg) (hR : 0 < cfg.rows) (hr hc d0 : Nat)
+    (as : List (Int × Nat)) (j : Nat) (hj : (j : Int) < cfg.timeLimit) (e : State × TimeStep Obs)
+    (he : (Ep.rollout (fun s (a : Int × Nat) => step rnd cfg s a.1 a.2) (reset rnd cfg hr hc d0).1 as)[j]? = some e) :
+    (obsSpec cfg).valid (toNValue e.2.obs) = true ∧ SpecInv cfg e.1 :=
+  Snake.rollout_obs_valid rnd hrnd cfg hR hr hc d0 as j hj e he
+
+/-- float32 model (the rounding the bridge uses): hypothesis-free versions of the three membership theorems -/
+theorem snake_obs_valid_roundF32 (cfg : Cfg) (hR : 0 < cfg.rows) :
+    (∀ hr hc d : Nat, 0 ≤ cfg.timeLimit → (obsSpec cfg).valid (toNValue (reset Jx.roundF32 cfg hr hc d).2.obs) = true) ∧
+    (∀ (s : State) (a : Int) (d : Nat), SpecInv cfg s → s.stepCount < cfg.timeLimit →
+      (obsSpec cfg).valid (toNValue (step Jx.roundF32 cfg s a d).2.obs) = true) ∧
+    (∀ (hr hc d0 : Nat) (as : List (Int × Nat)) (j : Nat) (e : State × TimeStep Obs), (j : Int) < cfg.timeLimit →
+      (Ep.rollout (fun s (a : Int × Nat) => step Jx.roundF32 cfg s a.1 a.2) (reset Jx.roundF32 cfg hr hc d0).1 as)[j]? = some e →
+      (obsSpec cfg).valid (toNValue e.2.obs) = true) :=
+  ⟨fun hr hc d htl => Snake.reset_obs_valid _ snake_rndKeeps01_roundF32 cfg hR htl hr hc d,
+   fun s a d h hl => Snake.step_obs_valid _ snake_rndKeeps01_roundF32 cfg hR s h hl a d,
+   fun hr hc d0 as j e hj he => (Snake.rollout_obs_valid _ snake_rndKeeps01_roundF32 cfg hR hr hc d0 as j hj e he).1⟩
+
+/-- what membership means (so the theorems above are not hollow): `validate` accepts an observation ONLY IF the board has the
+configured shape, all five plane values of every cell lie in `[0, 1]`, the counter lies in `[0, time_limit]` and the mask
+has four entries -/
+theorem snake_obs_valid_only (cfg : Cfg) (o : Obs) (h : (obsSpec cfg).valid (toNValue o) = true) :
+    o.body.length = cfg.rows ∧ (o.body.headD []).length = cfg.cols ∧
+    (∀ r c, r < cfg.rows → c < cfg.cols →
+      ∀ x ∈ [Grid.get o.body 0 r c, Grid.get o.head 0 r c, Grid.get o.tail 0 r c, Grid.get o.fruit 0 r c,
+             Grid.get o.norm 0 r c], (0 : Rat) ≤ x ∧ x ≤ 1) ∧
+    0 ≤ o.stepCount ∧ o.stepCount ≤ cfg.timeLimit ∧ o.actionMask.length = 4 := Snake.obs_valid_only cfg o h
+
+/-- positive and negative instances (2×3 board, limit 4, exact arithmetic): the reset observation and the observation after
+one step are members; a counter beyond the limit (what the original `DiscreteArray(time_limit)` did to the terminal step), a
+plane value 2, a spec for a board with one more column, and a spec with the original off-by-one (`time_limit − 1` as the
+limit, terminal observation) are rejected -/
+example :
+    (obsSpec ⟨2, 3, 4⟩).valid (toNValue (reset id ⟨2, 3, 4⟩ 0 0 5).2.obs) = true ∧
+    (obsSpec ⟨2, 3, 4⟩).valid (toNValue (step id ⟨2, 3, 4⟩ (reset id ⟨2, 3, 4⟩ 0 0 5).1 1 0).2.obs) = true ∧
+    (obsSpec ⟨2, 3, 4⟩).valid (toNValue { (reset id ⟨2, 3, 4⟩ 0 0 5).2.obs with stepCount := 5 }) = false ∧
+    (obsSpec ⟨2, 3, 4⟩).valid (toNValue { (reset id ⟨2, 3, 4⟩ 0 0 5).2.obs with norm := [[2, 0, 0], [0, 0, 0]] }) = false ∧
+    (obsSpec ⟨2, 4, 4⟩).valid (toNValue (reset id ⟨2, 3, 4⟩ 0 0 5).2.obs) = false ∧
+    (obsSpec ⟨2, 3, 0⟩).valid (toNValue (step id ⟨2, 3, 1⟩ (reset id ⟨2, 3, 1⟩ 0 0 5).1 1 0).2.obs) = false := by
+  decide +kernel
+
+/-- reward and discount of every `step` (ALL states, ALL integer actions, all draws) and of `reset` are accepted by
+`reward_spec` (Array((), float)) and `discount_spec` (BoundedArray((), float, 0, 1)) -/
+theorem snake_reward_discount_valid (rnd : Rat → Rat) (cfg : Cfg) (s : State) (a : Int) (d hr hc d0 : Nat) :
+    rewardSpec.valid (scalarArr (step rnd cfg s a d).2.reward) = true ∧
+    discountSpec.valid (scalarArr (step rnd cfg s a d).2.discount) = true ∧
+    rewardSpec.valid (scalarArr (reset rnd cfg hr hc d0).2.reward) = true ∧
+    discountSpec.valid (scalarArr (reset rnd cfg hr hc d0).2.discount) = true :=
+  ⟨(Snake.step_reward_discount_valid rnd cfg s a d).1, (Snake.step_reward_discount_valid rnd cfg s a d).2,
+   (Snake.reset_reward_discount_valid rnd cfg hr hc d0).1, (Snake.reset_reward_discount_valid rnd cfg hr hc d0).2⟩
+
+/-- `action_spec.generate_value()` = 0 (Up): the action spec is well-formed, the generated value is a member, `step` answers
+it in EVERY state with a protocol-conform timestep and — from a state satisfying the invariant whose counter has not reached
+the limit — with an observation in the spec; membership in `action_spec` is "0 ≤ a < 4" -/
+theorem snake_accepts_generate_value (rnd : Rat → Rat) (hrnd : RndKeeps01 rnd) (cfg : Cfg) (hR : 0 < cfg.rows) (s : State)
+    (d : Nat) :
+    Snake.actionSpec.WF = true ∧ Snake.actionSpec.valid Snake.actionSpec.generate = true ∧
+    Snake.actionSpec.generate = actionArr 0 ∧ StepOK none false (step rnd cfg s 0 d).2 = true ∧
+    (SpecInv cfg s → s.stepCount < cfg.timeLimit →
+      (obsSpec cfg).valid (toNValue (step rnd cfg s 0 d).2.obs) = true) :=
+  Snake.accepts_generate_value rnd hrnd cfg hR s d
+
+theorem snake_action_spec_iff (a : Int) : Snake.actionSpec.valid (actionArr a) = true ↔ 0 ≤ a ∧ a < 4 :=
+  Snake.actionSpec_valid_iff a
 end Props.C01
